@@ -19,9 +19,13 @@ G = pg.geno
 
 TIERS = {
     # `per_config` = number of spaces every configuration is run on (rotating
-    # through the spaces it admits, so that every space is used).
-    'quick': dict(shards=8, Ns=[10], W=3, M=3, per_config=3, timeout_s=600),
+    # through the spaces it admits, so that every space is used);
+    # `per_custom_sweep` / `per_custom` = number of spaces with custom decision
+    # points on top of that, for sweeping-based / other configurations.
+    'quick': dict(shards=8, Ns=[10], W=3, M=3, per_config=3, per_custom=0,
+                  per_custom_sweep=2, timeout_s=600),
     'thorough': dict(shards=16, Ns=[6, 12, 24], W=3, M=4, per_config=8,
+                     per_custom=3, per_custom_sweep=5,
                      timeout_s=5400, case_timeout_s=900),
 }
 LEVEL = 'fault_enumeration'
@@ -37,21 +41,33 @@ RULE = ('case = (algorithm configuration, search space, run length N); inside a 
         'de-duplication configurations: a fresh run for every (k, w), followed '
         'by a destructive probe of the de-duplication memory). At each crash '
         'point the history (DNA with metadata, reward or None) goes through '
-        'JSON, a fresh instance is set up and recovers it, and proposal/'
+        'JSON, a fresh instance is set up and recovers it (the history is '
+        'handed to recover() in a form that rotates from crash point to crash '
+        'point: list, tuple, generator, iter(), zip, map, deque, an unsized '
+        're-iterable and a once-only Iterable; a difference that a list of the '
+        'same entries does not show is keyed with the kind of the form), and '
+        'proposal/'
         'feedback counts at every wrapper level, population with fitness, the '
         'de-duplication memory (probe proposals through a harness-driven inner '
         'generator) and, for history-determined algorithms, the next M '
         'proposals are compared. Algorithm seeds and sizes are drawn from the '
-        'case RNG. Non-trivial = the case compared at least one crash point '
+        'case RNG. Spaces: choices (nested, conditional, multi-choices), '
+        'floats, and custom decision points whose next_dna_fn sweeps in an '
+        'order that is not the order of their string values (with N raised '
+        'where needed to get past the first disagreement). Non-trivial = the case compared at least one crash point '
         'with k >= 2; distinct by (configuration, parameters, space, N, '
         'longest live history).')
-REQUIRED_COUNTERS = ['crash_points', 'crash_points_pending', 'count_compares',
+REQUIRED_COUNTERS = ['crash_points', 'crash_points_pending',
+                     'crash_points_one_shot_history', 'crash_points_custom_space',
+                     'count_compares',
                      'population_compares', 'continuation_compares',
                      'dedup_memory_probes']
 ASSUMPTIONS = [
     'feedback is given in proposal order (as the quantifier states); rewards are a deterministic function of the DNA (for NEAT: of the DNA and its position in the history, see below)',
     'the history is persisted at the crash point: each DNA (with the metadata the algorithm attached so far) and each reward go through pg.to_json_str/from_json_str',
     'Sweeping (alone or under Deduping) is not run on spaces with float decision points (documented as unsupported by next_dna)',
+    'custom decision points come with next_dna_fn and random_dna_fn over a finite list of strings (without them sweeping / random generation is documented as unsupported)',
+    'recover() is documented to take an Iterable of (DNA, reward) tuples: any Iterable of the persisted entries (sequence, one-shot iterator, unsized or once-only Iterable) must recover the same state',
     'continuation is compared only for sweeping, seeded random and Deduping over them; evolution-based algorithms are compared on counts and population with fitness',
     'state of the population initializer of an Evolution and its global_state are not part of the compared state (not named by the property)',
     'proposals of an inner generator that Deduping dropped as duplicates are not in the persisted history: the recovered inner num_proposals may be lower than the uninterrupted one by at most their number',
@@ -69,10 +85,13 @@ def _c(n):
   return [G.constant() for _ in range(n)]
 
 
+Space = collections.namedtuple(
+    'Space', 'name spec has_float weight custom n_min', defaults=(False, 0))
+
+
 def make_spaces():
-  """[(name, spec, has_float, number of DNA nodes)] — small spaces so that
-  duplicates are frequent."""
-  return [
+  """[Space] — small spaces so that duplicates are frequent."""
+  return [Space(*t) for t in [
       ('oneof3', G.space([G.oneof(_c(3))]), False, 1),
       ('oneof4-manyof2of3-oneof3',
        G.space([G.oneof(_c(4)), G.manyof(2, _c(3), distinct=True), G.oneof(_c(3))]), False, 6),
@@ -89,7 +108,52 @@ def make_spaces():
                          G.constant()]),
                 G.oneof(_c(2))]), False, 5),
       ('float-oneof2', G.space([G.floatv(-1.0, 1.0), G.oneof(_c(2))]), True, 3),
-  ]
+  ]]
+
+
+def custom_point(values, name=None):
+  """A custom decision point (`pg.geno.custom`) over the string `values`:
+  `next_dna_fn` sweeps them in the given order, `random_dna_fn` draws one."""
+  values = list(values)
+  succ = dict(zip(values, values[1:]))
+
+  def next_dna(dna):
+    if dna is None:
+      return pg.DNA(values[0])
+    v = succ.get(dna.value)
+    return None if v is None else pg.DNA(v)
+
+  def random_dna(random_generator, previous_dna=None):
+    del previous_dna
+    return pg.DNA(random_generator.choice(values))
+
+  return G.custom(hyper_type='c15', next_dna_fn=next_dna,
+                  random_dna_fn=random_dna, name=name)
+
+
+def _decimals(lo, hi):
+  return [str(i) for i in range(lo, hi)]
+
+
+def make_custom_spaces():
+  """Spaces with custom decision points, alone and next to choices. The sweep
+  order of a custom decision point is whatever its `next_dna_fn` says; the
+  orders used here are mostly NOT the order of the string values (decimal
+  counters beyond 9, descending letters, words). `n_min` = run length needed
+  to get past the first place where the two orders disagree."""
+  return [Space(*t) for t in [
+      ('custom[7..12]', G.space([custom_point(_decimals(7, 13))]), False, 1, True),
+      ('oneof2-custom[0..11]',
+       G.space([G.oneof(_c(2)), custom_point(_decimals(0, 12))]), False, 6, True, 13),
+      ('custom[d..a]-oneof3',
+       G.space([custom_point('dcba'), G.oneof(_c(3))]), False, 3, True),
+      ('conditional-custom[words]-oneof2',
+       G.space([G.oneof([G.space([custom_point(['one', 'two', 'three', 'four'])]),
+                         G.constant()]),
+                G.oneof(_c(2))]), False, 4, True),
+      ('custom[a..c]-custom[98..101]',
+       G.space([custom_point('abc'), custom_point(_decimals(98, 102))]), False, 2, True),
+  ]]
 
 
 # Harness-driven de-duplication configurations enumerate the space.
@@ -126,10 +190,17 @@ def numbers(dna):
   return tuple(dna.to_numbers())
 
 
+def amounts(dna):
+  """The decisions as numbers (the string of a custom decision point counts
+  as its decimal value, or else as a small number made of its characters)."""
+  return [(int(x) if x.isdigit() else sum(map(ord, x)) % 11)
+          if isinstance(x, str) else x for x in dna.to_numbers()]
+
+
 def hash_sum(dna):
   """A colliding hash function for Deduping(hash_fn=...)."""
   return int(sum(round(x * 8) if isinstance(x, float) else x
-                 for x in dna.to_numbers()))
+                 for x in amounts(dna)))
 
 
 def auto_reward(rewards):
@@ -145,7 +216,7 @@ def auto_reward_mo(rewards):
 
 def reward_of(algo, dna, ordinal=0, tiebreak=False):
   """Reward of the `ordinal`-th proposal of a run (a function of the DNA)."""
-  s = sum(dna.to_numbers())
+  s = sum(amounts(dna))
   r = float(int(s * 2) % 5) * 0.5 + 0.1
   if tiebreak:
     # NEAT allocates offspring proportionally to (fitness - minimum) and
@@ -241,6 +312,9 @@ CONFIGS = [
            lambda p: G.Deduping(G.Sweeping(), max_proposal_attempts=ATTEMPTS), _p_none, True, True),
     Config('Deduping(Sweeping,hash_fn)', 'Deduping(Sweeping)',
            lambda p: G.Deduping(G.Sweeping(), hash_fn=hash_sum,
+                                max_proposal_attempts=ATTEMPTS), _p_none, True, True),
+    Config('Deduping(Sweeping,max_duplicates=2)', 'Deduping(Sweeping)',
+           lambda p: G.Deduping(G.Sweeping(), max_duplicates=2,
                                 max_proposal_attempts=ATTEMPTS), _p_none, True, True),
     Config('Deduping(Random[seeded])', 'Deduping(Random[seeded])',
            lambda p: G.Deduping(G.Random(seed=p['seed']),
@@ -392,25 +466,102 @@ class Live:
     entry[1] = r
 
 
-def recovered_instance(ctx, cfg, params, spec, live):
-  """Fresh instance + recover(JSON history); None if recover raised."""
-  h = persist(live.history)
+# Forms in which the persisted history is handed to `recover` (documented
+# parameter type: an Iterable of (DNA, reward-or-None) tuples).
+
+class OnceIterable:
+  """An Iterable (neither a sequence nor an iterator) that hands out its
+  entries once, like a cursor over a store: a second iteration finds nothing
+  left."""
+
+  def __init__(self, entries):
+    self._left = collections.deque(entries)
+
+  def __iter__(self):
+    while self._left:
+      yield self._left.popleft()
+
+
+class Unsized:
+  """An Iterable that can be iterated repeatedly but has no len()/index."""
+
+  def __init__(self, entries):
+    self._entries = tuple(entries)
+
+  def __iter__(self):
+    return iter(self._entries)
+
+
+# (name, kind, builder from a list of (dna, reward) tuples)
+HISTORY_FORMS = [
+    ('list', 'sequence', list),
+    ('generator', 'one-shot', lambda h: (e for e in h)),
+    ('tuple', 'sequence', tuple),
+    ('zip', 'one-shot', lambda h: zip([d for d, _ in h], [r for _, r in h])),
+    ('unsized-iterable', 'iterable', Unsized),
+    ('iter(list)', 'one-shot', iter),
+    ('once-iterable', 'one-shot', OnceIterable),
+    ('map', 'one-shot', lambda h: map(tuple, [list(e) for e in h])),
+    ('deque', 'iterable', collections.deque),
+]
+LIST_FORM = HISTORY_FORMS[0]
+# Mechanism suffix of a difference that a list of the same entries does not
+# show (established by recovering a second instance from the list).
+FORM_SUFFIX = {'one-shot': '+one-shot-history', 'iterable': '+non-list-history'}
+
+
+def next_form(ctx):
+  """Rotates through the forms, crash point after crash point."""
+  ctx.c15_turn += 1
+  return HISTORY_FORMS[ctx.c15_turn % len(HISTORY_FORMS)]
+
+
+def recovered_instance(ctx, cfg, params, spec, h, form, diffs):
+  """Fresh instance + recover(`h` in the given form); None if recover raised
+  (recorded in `diffs`)."""
   b = cfg.make(params)
   ctx.label = 'setup:' + cfg.family
   b.setup(spec)
+  handed = form[2](list(h))
   ctx.label = 'recover:' + cfg.family
   try:
-    b.recover(h)
+    b.recover(handed)
   except Exception as e:  # pylint: disable=broad-except
     if not lib_raised(e):
       raise
     ctx.label = None
-    ctx.counters['recover_raised'] += 1
-    ctx.violation('recover-raises', cfg.family,
-                  f'{type(e).__name__}: {e!s:.300}', witness(cfg, params, live))
+    diffs.append(('recover-raises', cfg.family, f'{type(e).__name__}: {e!s:.300}', {}))
     return None
   ctx.label = None
   return b
+
+
+def report(ctx, cfg, params, live, diffs, form, base_diffs):
+  """Reports the differences [(clause, mechanism, detail, witness extras)] of
+  an instance recovered from a history in `form`. `base_diffs()` = the
+  differences of an instance recovered from a list of the same entries: what
+  it shows as well is reported under the plain mechanism, what only the other
+  form shows gets the suffix of the form's kind."""
+  if not diffs:
+    return
+  name, kind, _ = form
+  plain = None
+  if kind != 'sequence':
+    ctx.counters['history_form_attributions'] += 1
+    plain = {(c, m) for c, m, _, _ in base_diffs()}
+  seen = set()
+  for clause, mech, detail, extra in diffs:
+    if plain is not None and (clause, mech) not in plain:
+      # The outermost generator is the one that consumes the Iterable: its
+      # recover() is the mechanism, whatever it wraps.
+      mech = type(live.algo).__name__ + '.recover' + FORM_SUFFIX[kind]
+      detail += (f' [history handed to recover() as {name}; an instance recovered '
+                 'from a list of the same entries does not show this]')
+    if (clause, mech) in seen:
+      continue
+    seen.add((clause, mech))
+    ctx.violation(clause, mech, detail,
+                  witness(cfg, params, live, history_form=name, **extra))
 
 
 def witness(cfg, params, live, **kw):
@@ -421,11 +572,10 @@ def witness(cfg, params, live, **kw):
   return w
 
 
-def compare_state(ctx, cfg, params, live, b, pending_sfx):
-  """Counts and population at every wrapper level. Returns True if equal."""
-  c = ctx.counters
-  sa, sb = observe(live.algo), observe(b)
-  ok = True
+def compare_state(ctx, cfg, sa, b, pending_sfx, diffs, count=True):
+  """Counts and population at every wrapper level (`sa` = observe(live))."""
+  c = ctx.counters if count else collections.Counter()
+  sb = observe(b)
   for depth, (la, lb) in enumerate(zip(sa, sb)):
     # Differences at the outer level are attributed to the configuration,
     # below it to the wrapper that is responsible for recovering its inner
@@ -443,20 +593,16 @@ def compare_state(ctx, cfg, params, live, b, pending_sfx):
       c['count_compares'] += 1
       slack = dropped if key == 'num_proposals' else 0
       if not la[key] - slack <= lb[key] <= la[key]:
-        ok = False
-        ctx.violation(clause, mech,
+        diffs.append((clause, mech,
                       f'level {depth}: uninterrupted {key}={la[key]}, recovered {lb[key]}',
-                      witness(cfg, params, live, live_state=sa, recovered_state=sb))
+                      {'live_state': sa, 'recovered_state': sb}))
     if 'population' in la:
       c['population_compares'] += 1
       c['population_members_compared'] += len(la['population'])
       if la['population'] != lb.get('population'):
-        ok = False
-        ctx.violation('population', mech,
+        diffs.append(('population', mech,
                       f'level {depth}: uninterrupted population {la["population"]!r:.500} '
-                      f'recovered {lb.get("population")!r:.500}',
-                      witness(cfg, params, live))
-  return ok
+                      f'recovered {lb.get("population")!r:.500}', {}))
 
 
 def next_proposals(ctx, cfg, algo, m):
@@ -532,50 +678,76 @@ def memory_mechanism(live, pa, pb):
 
 
 def check_crash_point(ctx, cfg, params, spec, live, path, destructive, m):
-  """Recovers at the current point of `live`; returns the recovered instance."""
+  """Recovers at the current point of `live`; returns (recovered instance or
+  None, persisted history, form it was handed over in)."""
   c = ctx.counters
   j = len(live.pending)
+  form = next_form(ctx)
   c['crash_points'] += 1
   if j:
     c['crash_points_pending'] += 1
   c['crash_points:' + cfg.family] += 1
   c[f'crash_points:{path}:missing={j}'] += 1
+  c['crash_points:history-form=' + form[0]] += 1
+  if form[1] == 'one-shot' and live.history:
+    c['crash_points_one_shot_history'] += 1
   ctx.seen('crash_point_kinds', (cfg.name, path, len(live.history), j))
   sfx = '+pending' if (j and live.algo.needs_feedback) else ''
   mech = cfg.family + sfx
-  b = recovered_instance(ctx, cfg, params, spec, live)
+  h = persist(live.history)
+
+  # The uninterrupted side is observed once (the destructive part last).
+  lv = {'state': observe(live.algo)}
+  b_diffs = []
+  b = recovered_instance(ctx, cfg, params, spec, h, form, b_diffs)
+  if destructive and b is not None:
+    if cfg.determined:
+      c['continuation_compares'] += 1
+      lv['next'] = next_proposals(ctx, cfg, live.algo, m)
+    if is_puppet(cfg):
+      # Probe the DNAs that occur in the history (latest first) plus one that
+      # does not.
+      seen, probes = set(), []
+      for d, _ in reversed(live.history):
+        if numbers(d) not in seen:
+          seen.add(numbers(d))
+          probes.append(d)
+      fresh = [d for d in live.all_dnas if numbers(d) not in seen]
+      probes = probes[:4] + fresh[:1]
+      c['dedup_memory_probes'] += len(probes)
+      lv['probes'] = probes
+      lv['memory'] = probe_memory(ctx, cfg, live.algo, probes)
+
+  def examine(x, diffs, count):
+    """Differences of the recovered instance `x` from the uninterrupted one."""
+    compare_state(ctx, cfg, lv['state'], x, sfx, diffs, count)
+    if 'next' in lv:
+      cb = next_proposals(ctx, cfg, x, m)
+      if lv['next'] != cb:
+        diffs.append(('continuation', mech,
+                      f'uninterrupted run continues with {lv["next"]}, recovered with {cb}',
+                      {}))
+    if 'memory' in lv:
+      pa, pb = lv['memory'], probe_memory(ctx, cfg, x, lv['probes'])
+      if pa != pb:
+        diff = [(p, q) for p, q in zip(pa, pb) if p != q]
+        diffs.append(('dedup-memory', memory_mechanism(live, pa, pb),
+                      '(dna, accepted before de-duplication, then): uninterrupted vs '
+                      f'recovered {diff!r:.600}', {}))
+
+  def base_diffs():
+    diffs = []
+    x = recovered_instance(ctx, cfg, params, spec, h, LIST_FORM, diffs)
+    if x is not None:
+      examine(x, diffs, False)
+    return diffs
+
   if b is None:
-    return None
-  compare_state(ctx, cfg, params, live, b, sfx)
-  if not destructive:
-    return b
-  if cfg.determined:
-    c['continuation_compares'] += 1
-    ca = next_proposals(ctx, cfg, live.algo, m)
-    cb = next_proposals(ctx, cfg, b, m)
-    if ca != cb:
-      ctx.violation('continuation', mech,
-                    f'uninterrupted run continues with {ca}, recovered with {cb}',
-                    witness(cfg, params, live))
-  if is_puppet(cfg):
-    # Probe the DNAs that occur in the history (latest first) plus one that
-    # does not.
-    seen, probes = set(), []
-    for d, _ in reversed(live.history):
-      if numbers(d) not in seen:
-        seen.add(numbers(d))
-        probes.append(d)
-    fresh = [d for d in live.all_dnas if numbers(d) not in seen]
-    probes = probes[:4] + fresh[:1]
-    c['dedup_memory_probes'] += len(probes)
-    pa = probe_memory(ctx, cfg, live.algo, probes)
-    pb = probe_memory(ctx, cfg, b, probes)
-    if pa != pb:
-      diff = [(x, y) for x, y in zip(pa, pb) if x != y]
-      ctx.violation('dedup-memory', memory_mechanism(live, pa, pb),
-                    '(dna, accepted before de-duplication, then): uninterrupted vs '
-                    f'recovered {diff!r:.600}', witness(cfg, params, live))
-  return b
+    c['recover_raised'] += 1
+  else:
+    examine(b, b_diffs, True)
+  report(ctx, cfg, params, live, b_diffs, form, base_diffs)
+  return b, h, form
 
 
 # ---------------------------------------------------------------------------
@@ -604,15 +776,28 @@ def case_cost(cfg, weight, n):
   return runs * (weight + 0.5) * n * n
 
 
+def is_sweep(cfg):
+  return cfg.nofloat
+
+
+def admits(cfg, sp):
+  if cfg.nofloat and sp.has_float:
+    return False
+  if is_puppet(cfg) and (sp.weight > PUPPET_MAX_WEIGHT or sp.n_min):
+    return False
+  return True
+
+
 def case_table(ctx):
   """[(config index, space index, N)], the same in every shard."""
   spaces = make_spaces()
+  customs = make_custom_spaces()
   per = int(ctx.params['per_config'])
-  table, turn = [], 0
+  per_custom = int(ctx.params['per_custom'])
+  per_custom_sweep = int(ctx.params['per_custom_sweep'])
+  table, turn, cturn = [], 0, 0
   for ci, cfg in enumerate(CONFIGS):
-    admitted = [si for si, sp in enumerate(spaces)
-                if not (cfg.nofloat and sp[2])
-                and not (is_puppet(cfg) and sp[3] > PUPPET_MAX_WEIGHT)]
+    admitted = [si for si, sp in enumerate(spaces) if admits(cfg, sp)]
     chosen = []
     for _ in range(min(per, len(admitted))):
       # Rotate through all spaces over the configurations.
@@ -622,29 +807,43 @@ def case_table(ctx):
         if si in admitted and si not in chosen:
           chosen.append(si)
           break
+    # Spaces with custom decision points (the sweep order is theirs to
+    # define), rotating: `per_custom_sweep` of them for the sweeping
+    # configurations, `per_custom` for the others.
+    admitted = [si for si, sp in enumerate(customs) if admits(cfg, sp)]
+    want = min(per_custom_sweep if is_sweep(cfg) else per_custom, len(admitted))
+    cchosen = []
+    while len(cchosen) < want:
+      si = cturn % len(customs)
+      cturn += 1
+      if si in admitted and si not in cchosen:
+        cchosen.append(si)
+    chosen += [len(spaces) + si for si in cchosen]
+    both = spaces + customs
     for si in chosen:
-      for n in ctx.params['Ns']:
+      for n in sorted({max(n, both[si].n_min) for n in ctx.params['Ns']}):
         table.append((ci, si, n))
   return table
 
 
 def setup(ctx):
-  spaces = make_spaces()
+  spaces = make_spaces() + make_custom_spaces()
   table = case_table(ctx)
   # Longest-processing-time-first assignment of the cases to the shards.
   order = sorted(range(len(table)), key=lambda t: (-case_cost(
-      CONFIGS[table[t][0]], spaces[table[t][1]][3], table[t][2]), t))
+      CONFIGS[table[t][0]], spaces[table[t][1]].weight, table[t][2]), t))
   load = [0.0] * ctx.nshards
   mine = []
   for t in order:
     s = min(range(ctx.nshards), key=lambda x: (load[x], x))
-    load[s] += case_cost(CONFIGS[table[t][0]], spaces[table[t][1]][3], table[t][2])
+    load[s] += case_cost(CONFIGS[table[t][0]], spaces[table[t][1]].weight, table[t][2])
     if s == ctx.shard:
       mine.append(table[t])
   ctx.table = mine
   ctx.spaces = spaces
   ctx.notes['configurations'] = [c.name for c in CONFIGS]
-  ctx.notes['spaces'] = [s[0] for s in spaces]
+  ctx.notes['spaces'] = [s.name for s in spaces]
+  ctx.notes['history_forms'] = [f[0] for f in HISTORY_FORMS]
   ctx.notes['cases_total'] = len(table)
   ctx.notes['configuration_x_space'] = len({(a, b) for a, b, _ in table})
 
@@ -656,8 +855,12 @@ def cases(ctx):
 def run_case(ctx, i):
   ci, si, n = ctx.table[i]
   cfg = CONFIGS[ci]
-  sname, spec, has_float, _ = ctx.spaces[si]
+  sp = ctx.spaces[si]
+  sname, spec, has_float = sp.name, sp.spec, sp.has_float
   rng = ctx.rng
+  # The form of the history handed to recover() rotates from crash point to
+  # crash point, from a start that depends on the seed.
+  ctx.c15_turn = ctx.seed * 7 + i
   params = cfg.params(rng)
   if 'seed' in params and si % 3 == ctx.seed % 3:
     # Every seeded configuration is run with the boundary seed 0 (legal, and
@@ -691,13 +894,17 @@ def run_case(ctx, i):
     live = new_live(f'lag/{w}')
     recovered = []
     check_crash_point(ctx, cfg, params, spec, live, 'lag', False, m)
+    if sp.custom:
+      c['crash_points_custom_space'] += 1
     for _ in range(n):
       if not live.propose():
         break
       if len(live.pending) > w:
         live.feedback_oldest()
-      b = check_crash_point(ctx, cfg, params, spec, live, 'lag', False, m)
-      recovered.append((len(live.history), b))
+      b, h, form = check_crash_point(ctx, cfg, params, spec, live, 'lag', False, m)
+      recovered.append((len(live.history), b, h, form))
+      if sp.custom:
+        c['crash_points_custom_space'] += 1
       note(live, schedule='lag', w=w)
     if live.exhausted:
       c['runs_ended_early'] += 1
@@ -709,18 +916,28 @@ def run_case(ctx, i):
         if not live.propose():
           break
       future = [numbers(d) for d, _ in live.history]
-      for at, b in recovered:
+      for at, b, h, form in recovered:
         if b is None:
           continue
         c['continuation_compares'] += 1
         exp = future[at:at + m]
         if len(exp) < m and live.exhausted:
           exp.append('stop')
-        got = next_proposals(ctx, cfg, b, m)[:len(exp)]
-        if got != exp:
-          ctx.violation('continuation', cfg.family,
-                        f'after {at} proposals the uninterrupted run continues with {exp}, '
-                        f'the recovered one with {got}', witness(cfg, params, live))
+
+        def continuation(x, exp=exp, at=at):
+          got = next_proposals(ctx, cfg, x, m)[:len(exp)]
+          if got == exp:
+            return []
+          return [('continuation', cfg.family,
+                   f'after {at} proposals the uninterrupted run continues with {exp}, '
+                   f'the recovered one with {got}', {'crash_point': at})]
+
+        def base_diffs(h=h, continuation=continuation):
+          diffs = []
+          x = recovered_instance(ctx, cfg, params, spec, h, LIST_FORM, diffs)
+          return diffs if x is None else continuation(x)
+
+        report(ctx, cfg, params, live, continuation(b), form, base_diffs)
 
   # -- schedule "tail": answered proposals, then unanswered ones -------------
   if is_puppet(cfg):
